@@ -201,14 +201,17 @@ def run(ctx):
         for f in range(len(c['data'])):
             for kk, p in enumerate(c['centers'][f]):
                 exprs.append('integrate %d %d (Crop.of_list2 %s) %d (Corr.of_list2 %s) %s %s' % (fy, fx, clist2(c['data'][f].astype(np.int64).tolist()), cs, clist2(mq.tolist()), cz(p[0]), cz(p[1])))
-                meta.append((float(got[f, kk]), c['desc'], p.tolist(), c['parts']))
+                w = cl.window_float(c['data'][f].astype(np.float64), cs, p)
+                mfl = np.asarray(c['pattern'].get_mask((2 * cs, 2 * cs)), dtype=np.float64)
+                meta.append((float(got[f, kk]), c['desc'], p.tolist(), (float((np.abs(w) * np.abs(mfl)).sum()), float(np.abs(w).sum() / cl.QS))))
         ctx.hist('dtype', str(c['data'].dtype))
     vals = ctx.coq_eval('integ', cl.COQ_IMPORTS + ' Model.Stamp Model.UDF', exprs, shard=40)
     nbad = 0
-    for mv, (iv, desc, p, parts) in zip(vals, meta):
+    for mv, (iv, desc, p, scale) in zip(vals, meta):
         m = mv / float(cl.QS)
         ctx.count(1, key=('integ', desc, p, iv))
-        if abs(m - iv) > 1e-4 * (abs(m) + 1):
+        # float32 accumulation of terms of magnitude [scale] (cancellation for zero-sum masks) + mask quantisation
+        if abs(m - iv) > 2e-5 * scale[0] + scale[1] + 1e-6:
             nbad += 1
             ctx.obligation('K:C11 integration entry', False, 'model %.6g impl %.6g peak %s' % (m, iv, p))
     ctx.obligation('K:C11 IntegrationUDF = UDF.integrate (sum of the zero-padded crop times the mask) for %d (frame, peak) entries' % len(vals), nbad == 0, '%d mismatches' % nbad)
